@@ -39,15 +39,20 @@ def fill(t, blocks):
     statement (re-indented); an inline hole ('if $a: $B1') takes one-line statements only - None is returned when the
     requested filling is not expressible (a compound statement after the colon), and the caller skips it."""
     out = []
+    prev = ''
     for line in t.split('\n'):
         s = line.strip()
+        # an unfocused hole is 'pass', except the body of a try statement: a try body that cannot raise lets the
+        # compiler drop the exception path (handlers, the exception copy of the finally clause), so it is a call
+        filler = 'print()' if prev in ('try:', 'try: ') else 'pass'
+        prev = s
         if s.startswith('$B'):
             ind = line[:len(line) - len(line.lstrip())]
-            body = blocks.get(s[1:], 'pass')
+            body = blocks.get(s[1:], filler)
             out.extend(ind + x for x in body.split('\n'))
         elif '$B' in line:
             m = re.search(r'\$(B\d)', line)
-            body = blocks.get(m.group(1), 'pass')
+            body = blocks.get(m.group(1), 'print()' if s.startswith('try:') else 'pass')
             if '\n' in body or re.match(r'(if|while|for|try|with|async|def|class|match|@)\b', body):
                 return None
             out.append(line[:m.start()] + body + line[m.end():])
@@ -270,6 +275,12 @@ EXPR_REP = [
     '[x for x in $a if $b]', '{x: $b for x in $a}', 'await $a', '(yield $a)', '(yield from $a)', '(w := $a)', 'len($a)',
     '"%s" % ($a,)', '$a.append($b)', '[x async for x in $a]', 'isinstance($a, $b)', 'super()', '"s"', '(x for x in $a)',
 ]
+# the quick tier's inner expressions of the slot sweep (one per kind that interacts with scopes, targets, typing or generators)
+EXPR_REP_Q = [
+    '$a', '"s"', 'f"{$a!r:>{$b}}"', '$a[$b:$c]', '$a($b, *$c, k=1, **$d)', '$a < $b < $c', '$a in ($b, $c)', '$a if $b else $c',
+    'lambda x=$a: x + $b', '{$a: $b, **$c}', '[x for x in $a if $b]', '(x for x in $a)', 'await $a', '(yield $a)', '(w := $a)', 'len($a)',
+    'super()',
+]
 # hosts for expression slots that are not already statement templates
 EXPR_HOSTS = ['$l = ' + e for e in EXPR if _SLOT.search(e)]
 
@@ -400,7 +411,7 @@ def family_a(tier):
     rep_hosts = ['$l = ' + e for e in EXPR_REP if _SLOT.search(e)]
     for host in _dedupe([t for t in allst if _SLOT.search(t)] + EXPR_HOSTS):
         wide = host in kinds or host in rep_hosts
-        inner = (EXPR_REP if wide else MINI_E) if quick else (EXPR if wide else EXPR_REP)
+        inner = (EXPR_REP_Q if wide else MINI_E) if quick else (EXPR if wide else EXPR_REP)
         for sl in slots(host):
             for e in inner:
                 ie = inst(e, 2)
@@ -412,18 +423,50 @@ def family_a(tier):
     return progs
 
 
+# ---------------------------------------------------------------------------- family (a7): name binding across comprehension scopes
+def family_scope(tier):
+    """Assignment expressions inside a comprehension that is itself directly inside another comprehension, for all 3x3
+    list/set/dict nestings, in the element and in the condition, the target being bound nowhere else and READ after the
+    statement (PEP 572: the target belongs to the enclosing function); plus single-level and generator variants."""
+    progs = []
+    inner_el = {'L': '[(W := x) for x in y]', 'S': '{(W := x) for x in y}', 'D': '{x: (W := x) for x in y}'}
+    inner_if = {'L': '[x for x in y if (W := x)]', 'S': '{x for x in y if (W := x)}', 'D': '{x: x for x in y if (W := x)}'}
+    outer = {'L': '[INNER for y in $a]', 'S': '{INNER for y in $a}', 'D': '{0: INNER for y in $a}'}
+    exprs = []
+    for o in 'LSD':
+        for i in 'LSD':
+            exprs.append(('nest %s%s element' % (o, i), outer[o].replace('INNER', inner_el[i])))
+            exprs.append(('nest %s%s condition' % (o, i), outer[o].replace('INNER', inner_if[i])))
+    for i in 'LSD':
+        exprs.append(('single %s element' % i, inner_el[i].replace(' in y', ' in $a')))
+        exprs.append(('single %s condition' % i, inner_if[i].replace(' in y', ' in $a')))
+    exprs += [('genexp in list', '[list((W := x) for x in y) for y in $a]'), ('list in genexp', 'list([(W := x) for x in y] for y in $a)'),
+              ('triple nest', '[[[(W := x) for x in y] for y in z] for z in $a]'), ('outer condition', '[[x for x in y] for y in $a if (W := y)]'),
+              ('lambda in comprehension', '[[(lambda: (W := x))() for x in y] for y in $a]'),
+              ('both levels', '[[(W := x) for x in y if (V := y)] for y in $a]')]
+    readers = ['$b = W', 'return W', 'def $q():\n    return W', 'W += 1']
+    for k, (tag, e) in enumerate(exprs):
+        for r in (readers if tier != 'quick' else readers[:3]):
+            name = 'w%d' % k
+            body = (inst('$l = ' + e, 1) + '\n' + inst(r, 1)).replace('W', name).replace('V', name + 'v')
+            if 'V' in e:
+                body += '\n' + inst('$c = ', 1) + name + 'v'
+            progs.append(('a7-scope', '%s ;; %s' % (tag, r), ('func', 'async', 'method', 'nested', 'module'), body))
+    return progs
+
+
 # ---------------------------------------------------------------------------- family (a6): closures over header-bound names
 def family_closure(tier):
     """A def / generator / async def / class / lambda / each comprehension kind nested in EVERY block slot of
     EVERY compound statement (incl. each match case body), referring to the names the compound header binds."""
     inners = [
         'def $q():\n    return NAMES', 'def $q():\n    yield NAMES', 'async def $q():\n    return NAMES', 'class $q:\n    x = NAMES',
-        'class $q:\n    def m(self):\n        return NAMES', '$l = lambda: NAMES', '$l = [x for x in NAMES]', '$l = {x for x in NAMES}',
-        '$l = {x: x for x in NAMES}', '$l = (x for x in NAMES)', '$l = [lambda: (x, NAMES) for x in NAMES]',
+        'class $q:\n    def m(self):\n        return NAMES', '$l = lambda: NAMES', '$l = [x for x in NAMES]', '$l = (x for x in NAMES)',
+        '$l = {x for x in NAMES}', '$l = {x: x for x in NAMES}', '$l = [lambda: (x, NAMES) for x in NAMES]',
         'def $q(x=NAMES):\n    def r():\n        return x, NAMES\n    return r',
     ]
     if tier == 'quick':
-        inners = inners[:7]
+        inners = inners[:8]
     progs = []
     for o in COMPOUND:
         used = sorted(set(re.findall(r'\$([abcdmn])(?![0-9A-Za-z_])', o)))
